@@ -130,6 +130,19 @@ class Check(object):
             for i, r2 in zip(cap, rr):
                 r2["retried"] = True
                 res[i] = r2
+        # last resort against a slow or loaded machine: an obligation on which every solver ran into the time limit (none of them
+        # answered "unknown" or "sat") gets one long attempt alone, if there are at most three such; a real failure with a solver
+        # verdict is not delayed by this
+        def all_timed_out(r):
+            log = [e for e in (r.get("log") or []) if len(e) == 3 and e[1] != "stderr"]
+            return r["verdict"] in ("unknown", "error") and log and all(e[1] in ("error", "timeout") for e in log)
+
+        slow = [i for i in todo if all_timed_out(res[i])]
+        if 0 < len(slow) <= 3 and len(todo) <= 6:
+            for i in slow:
+                r2 = discharge([allobls[i]], timeout=300, workers=1, engine=eng)[0]
+                r2["retried"] = "long"
+                res[i] = r2
         self.obl_results.extend(res)
         byname = {o.name: o for o in allobls}
         for r in res:
